@@ -75,6 +75,7 @@ fn main() {
         "c07-run" => c07::run(rest),
         "repo-record" => repo::record(rest),
         "run-record" => runlog::record(rest),
+        "lit-selftest" => c02::lit_selftest(rest),
         x => {
             eprintln!("unknown subcommand {}", x);
             std::process::exit(2);
